@@ -181,6 +181,11 @@ func convertMapItemSeen(typ reflect.Type, in interface{}, seen map[_mapConversio
 	if raw.Type() == typ || typ.Kind() == reflect.Interface {
 		return raw
 	}
+	if typ.Kind() == reflect.Map && raw.Kind() == reflect.Ptr && !raw.IsNil() && raw.Elem().Kind() == reflect.Map {
+		// a back-reference to a map arrives as a pointer to it: the map behind it
+		// is converted here, with the maps under conversion still remembered
+		raw = raw.Elem()
+	}
 	if typ.Kind() == reflect.Map && raw.Kind() == reflect.Map {
 		key := _mapConversion{raw.Pointer(), typ}
 		if mp, ok := seen[key]; ok {
